@@ -441,6 +441,69 @@ fn nested_cases(f: &mut dyn FnMut(Case)) {
     }
 }
 
+/// Two towers of `d` nested containers that are declared equal only at the top: the evidence at the two innermost
+/// elements meets `d` unification rounds later. Depths go well beyond what any contract nests.
+fn tower_cases(f: &mut dyn FnMut(Case)) {
+    let ts = truths();
+    let truth = ts.iter().find(|t| t.name == "uint64").unwrap().clone();
+    for d in [1usize, 2, 3, 5, 8, 13, 21, 30, 31, 32, 33, 34, 48, 64, 100] {
+        for kind in ["mapping", "dyn_array", "alternating"] {
+            let a = |i: usize| i;
+            let b = |i: usize| d + 1 + i;
+            let ka = |i: usize| 2 * (d + 1) + i;
+            let kb = |i: usize| 2 * (d + 1) + d + i;
+            let n = 2 * (d + 1) + 2 * d;
+            let kind_at = |i: usize| match kind {
+                "alternating" => if i % 2 == 0 { "mapping" } else { "dyn_array" },
+                k => k,
+            };
+            let mut base: Vec<(usize, J)> = Vec::new();
+            let mut same = Vec::new();
+            let mut shape: Vec<(usize, &'static str)> = Vec::new();
+            for i in 0..d {
+                let k = kind_at(i);
+                base.push((a(i), if k == "mapping" { J::Mapping(ka(i), a(i + 1)) } else { J::DynArray(a(i + 1)) }));
+                base.push((b(i), if k == "mapping" { J::Mapping(kb(i), b(i + 1)) } else { J::DynArray(b(i + 1)) }));
+                same.push((a(i), b(i)));
+                if k == "mapping" {
+                    same.push((ka(i), kb(i)));
+                }
+                shape.push((a(i), if k == "mapping" { "mapping" } else { "dyn_array" }));
+            }
+            same.push((a(d), b(d)));
+            base.push((b(0), J::Equal(a(0))));
+            for ev in subsets(&weakenings(&truth), 2) {
+                let Some((w, u)) = join(&truth, &ev) else { continue };
+                // the first piece of evidence sits at the bottom of one tower, the others at the bottom of the other
+                let mut set = base.clone();
+                for (i, j) in ev.iter().enumerate() {
+                    set.push((if i == 0 { a(d) } else { b(d) }, j.clone()));
+                }
+                f(Case {
+                    set: set.clone(),
+                    n,
+                    expect: vec![(a(d), Some((w, usage_index(u)))), (b(d), Some((w, usage_index(u))))],
+                    same: same.clone(),
+                    shape: shape.clone(),
+                    label: format!("compatible:tower-{d}"),
+                });
+                if let Some(w) = w {
+                    let mut s2 = set.clone();
+                    s2.push((b(d), J::Word(Some(if w == 128 { 64 } else { 128 }), 0)));
+                    f(Case {
+                        set: s2,
+                        n,
+                        expect: vec![(a(d), None), (b(d), None)],
+                        same: vec![(a(d), b(d))],
+                        shape: vec![],
+                        label: format!("contradiction:tower-{d}"),
+                    });
+                }
+            }
+        }
+    }
+}
+
 pub struct C15;
 
 fn cases_of_chunk(chunk: usize, thorough: bool, f: &mut dyn FnMut(Case)) {
@@ -449,8 +512,10 @@ fn cases_of_chunk(chunk: usize, thorough: bool, f: &mut dyn FnMut(Case)) {
         word_cases(&ts[chunk], f);
     } else if chunk < ts.len() + 12 {
         constructor_cases(chunk - ts.len(), thorough, f);
-    } else {
+    } else if chunk == ts.len() + 12 {
         nested_cases(f);
+    } else {
+        tower_cases(f);
     }
 }
 
@@ -462,7 +527,7 @@ impl Check for C15 {
         "model_checking"
     }
     fn chunks(&self, _tier: Tier) -> usize {
-        truths().len() + 13
+        truths().len() + 14
     }
     fn run_chunk(&self, tier: Tier, chunk: usize, ctx: &mut Ctx) {
         cases_of_chunk(chunk, tier.thorough(), &mut |c: Case| {
@@ -482,6 +547,11 @@ impl Check for C15 {
             }
             if c.set.len() >= 4 && c.label.starts_with("compatible") {
                 ctx.sample(|| json!({"judgements": show_set(&c.set), "label": c.label, "verdict": "resolves to the join of the evidence"}));
+            }
+            if c.n > 40 {
+                // deep towers: the canonical order only (a deviation at each of several hundred order points would repeat
+                // a long unification that many times)
+                return;
             }
             let filter: &dyn Fn(&str) -> bool = if tier.thorough() { &|_| true } else { &|s| s.starts_with("unify.") || s == "tc.variables" };
             for pl in extend(&Vec::new(), &log, filter) {
@@ -510,7 +580,7 @@ impl Check for C15 {
              of the truth on one variable plus every subset of <= 2 on a second variable declared equal (width known or not, usage \
              anywhere below the true one on its chain: Bytes < Numeric < Unsigned | Signed, Bytes < Numeric < Unsigned < Address, Bytes < Address | Bool | Selector | \
              Function), constructors stated twice through an equality with the component evidence split between the two sides, crossed with \
-             `Any` on either side and on a third variable that is only declared equal; nested containers (two levels of mapping / dynamic array) whose innermost element is shared with a flat container declared equal to another, so that evidence arrives two rounds after the equality (quick tier: for component evidence of at most one judgement per component). \
+             `Any` on either side and on a third variable that is only declared equal; nested containers (two levels of mapping / dynamic array) whose innermost element is shared with a flat container declared equal to another, so that evidence arrives two rounds after the equality (quick tier: for component evidence of at most one judgement per component); two towers of 1 .. 100 nested mappings / dynamic arrays / alternating containers declared equal only at the top, with the evidence at the two innermost elements (depths above 8 under the canonical order only). \
              Expected: the join computed on the chains (not with the tool's merge table), never a conflict, constructors kept with \
              unified components. Then the same sets with exactly one plainly contradictory judgement (different width incl. width 0, signed vs \
              unsigned / address, bool vs numeric, mapping vs array, mapping vs sized word, fixed arrays of different length, two words of different widths next to a dynamic array): the class \
